@@ -145,6 +145,41 @@ func init() {
 			}
 		}
 	}
+	// pset k v k v ...: a paragraph built by Paragraph.Set alone, shown (order, values, number of values)
+	ops["pset"] = func(a []string) string {
+		p := control.Paragraph{Order: []string{}, Values: map[string]string{}}
+		for i := 0; i+1 < len(a); i += 2 {
+			p.Set(a[i], a[i+1])
+		}
+		return showPara(p)
+	}
+	// pupdate n k v ... (n pairs: the receiver) k v ... (the other): receiver.Update(other).  Update returns a NEW
+	// paragraph: receiver and other must be what they were, and a second Update gives the same result.
+	ops["pupdate"] = func(a []string) string {
+		n, _ := strconv.Atoi(arg(a, 0))
+		p := control.Paragraph{Order: []string{}, Values: map[string]string{}}
+		q := control.Paragraph{Order: []string{}, Values: map[string]string{}}
+		rest := a[1:]
+		for i := 0; i+1 < len(rest); i += 2 {
+			if i/2 < n {
+				p.Set(rest[i], rest[i+1])
+			} else {
+				q.Set(rest[i], rest[i+1])
+			}
+		}
+		p0, q0 := showPara(p), showPara(q)
+		r := p.Update(q)
+		shown := showPara(r)
+		if showPara(p) != p0 || showPara(q) != q0 {
+			return "update-changed-its-operands"
+		}
+		r2 := p.Update(q)
+		r.Set("Zz-Later", "x") // the first result is the caller's: changing it must not reach the operands or a later result
+		if showPara(r2) != shown || showPara(p) != p0 || showPara(q) != q0 {
+			return "update-results-share-state"
+		}
+		return shown
+	}
 	ops["wpara"] = func(a []string) string {
 		p := control.Paragraph{Order: []string{}, Values: map[string]string{}}
 		for i := 0; i+1 < len(a); i += 2 {
